@@ -232,6 +232,11 @@ def step (line : String) : String :=
     match parseEnc e, parseHex h with
     | some e, some b => hexOf (normalize e b)
     | _, _ => badOp
+  | ["abs", e, cwd, h] =>
+    -- the current directory arrives in the native (Unix) encoding and is converted, as the crate does
+    match parseEnc e, parseHex cwd, parseHex h with
+    | some e, some cwd, some b => hexOf (absolutize e (withEncoding .unix e cwd) b)
+    | _, _, _ => badOp
   | ["push", e, a, b] =>
     match parseEnc e, parseHex a, parseHex b with
     | some e, some a, some b => hexOf (push e a b)
